@@ -96,6 +96,51 @@ def run(ctx: Ctx, rep: Report) -> None:
     # evaluating contraction is the in-place one (shared with C06)
     from .C06 import clone_rule
     clone_rule(ctx, rep)
+    capable(ctx, rep)
+
+
+def capable(ctx: Ctx, rep: Report) -> None:
+    """CAPABLE: QFactor declares a circuit instantiable when every gate is a
+    LocallyOptimizableUnitary.  The class hierarchy decides who is: the
+    constant gates that do not derive from ConstantGate (which supplies the
+    trivial `optimize`) are not.  Either every gate class under
+    bqskit/ir/gates/constant derives from a locally optimisable base, or
+    `is_capable` and `get_violation_report` both exempt parameter-free
+    gates; otherwise every ansatz that contains such a gate (CNOT!) is
+    rejected and the passes that hard-code the qfactor method cannot run."""
+    R = 'CAPABLE'
+    consts = [
+        c for c in ctx.index.classes.values()
+        if c.path.startswith('bqskit/ir/gates/constant/')
+        and ctx.index.is_subclass(c, 'Gate')
+    ]
+    outside = sorted(
+        c.name for c in consts
+        if not ctx.index.is_subclass(c, 'LocallyOptimizableUnitary')
+    )
+    rep.floor(R, len(consts), 40, 'constant gate classes')
+    qf = ctx.index.cls('bqskit/ir/opt/instantiaters/qfactor.py:QFactor')
+    for name in ('is_capable', 'get_violation_report'):
+        f = qf.methods[name]
+        rep.seen(f.qualname)
+        rep.count()
+        mentions = {x.attr for x in ast.walk(f.node)
+                    if isinstance(x, ast.Attribute)}
+        exempt = bool(mentions & {
+            'num_params', 'is_constant', 'is_parameterized'})
+        rep.check(
+            exempt or not outside, R, f'QFactor.{name}', f.path, f.lineno,
+            (f'{len(outside)} constant gate classes are not locally '
+             'optimisable and the predicate exempts parameter-free gates'
+             if outside else 'every constant gate is locally optimisable'),
+            f'QFactor.{name} demands LocallyOptimizableUnitary of every '
+            f'gate, but {len(outside)} parameter-free gate classes do not '
+            f'derive from a locally optimisable base ({", ".join(outside[:6])}'
+            ', ...): any ansatz containing one of them is rejected, so '
+            'ExtractDiagonalPass and FullBlockZXZPass (which hard-code the '
+            'qfactor method for circuits with CNOTs) cannot run',
+            key='constant-gates',
+        )
 
 
 def eff(ctx: Ctx, rep: Report) -> None:
